@@ -13,6 +13,7 @@
    - chains, rules, phases, transaction by induction over the configuration.  *)
 From Verif Require Import Base Transform Determinism.
 From Coq Require Import Permutation.
+From Coq Require Import String.
 Open Scope N_scope.
 
 (* ------------------------------------------------------------------------------------- *)
@@ -196,3 +197,150 @@ Proof.
   induction acts as [|[k m] l IH]; intros s; cbn; [auto|].
   destruct (IH (setvar_apply s k (expand s m))) as [-> ->]. apply setvar_mv_same.
 Qed.
+
+(* ------------------------------------------------------------------------------------- *)
+(* one selected entry                                                                    *)
+(* ------------------------------------------------------------------------------------- *)
+
+Definition tval (lk : link) (e : entry) : bytes := fst (exec_tfs (l_tfs lk) (e_val e)).
+Definition matches (lk : link) (e : entry) : bool := xorb (op_raw (l_op lk) (tval lk e)) (l_neg lk).
+Definition mentry (lk : link) (e : entry) : entry := mkE (e_var e) (e_key e) (tval lk e).
+Definition mlist (lk : link) (e : entry) : list entry := if matches lk e then [mentry lk e] else [].
+Definition cap_write (lk : link) (e : entry) (s : st) : st :=
+  if op_raw (l_op lk) (tval lk e) && l_capture lk
+  then match op_cap (l_op lk) (tval lk e) with Some c => st_set s (str "0"%string) (mk_tv c) | None => s end
+  else s.
+Definition run_acts (lk : link) (s : st) : st := fold_left act_apply (l_acts lk) s.
+
+Lemma step_unfold lk p e :
+  step_entry lk p e =
+  (if matches lk e
+   then run_acts lk (st_set_mv (cap_write lk e (fst p)) (tval lk e) (match_name (mentry lk e)))
+   else cap_write lk e (fst p),
+   snd p ++ mlist lk e).
+Proof.
+  unfold step_entry, mlist, matches, cap_write, run_acts, mentry, tval.
+  destruct (xorb _ _); cbn; [reflexivity | rewrite app_nil_r; reflexivity].
+Qed.
+
+Lemma step_snd lk p e : snd (step_entry lk p e) = snd p ++ mlist lk e.
+Proof. rewrite step_unfold; reflexivity. Qed.
+
+Lemma cap_write_E a b lk e s s' : E a b s s' -> E a b (cap_write lk e s) (cap_write lk e s').
+Proof.
+  intros H. unfold cap_write. destruct (_ && _); auto. destruct (op_cap _ _); auto using E_st_set.
+Qed.
+
+Lemma cap_write_id lk e s : captures lk = false -> cap_write lk e s = s.
+Proof.
+  unfold captures, cap_write. intros H.
+  destruct (l_capture lk); [|rewrite andb_false_r; reflexivity].
+  cbn in H. destruct (l_op lk); try discriminate; cbn;
+    repeat match goal with |- context [if ?c then _ else _] => destruct c end; reflexivity.
+Qed.
+
+Lemma cap_write_W b lk e s : (captures lk = true -> b = true) -> E true b s (cap_write lk e s).
+Proof.
+  intros H. destruct (captures lk) eqn:Hc.
+  - rewrite (H eq_refl). unfold cap_write. destruct (_ && _); [|apply E_refl].
+    destruct (op_cap _ _); [apply W_set_cap; reflexivity | apply E_refl].
+  - rewrite cap_write_id; auto using E_refl.
+Qed.
+
+Lemma step_respects a b lk p p' e :
+  Forall (act_ok false b) (l_acts lk) ->
+  E a b (fst p) (fst p') ->
+  E a b (fst (step_entry lk p e)) (fst (step_entry lk p' e))
+  /\ (matches lk e = true -> E false b (fst (step_entry lk p e)) (fst (step_entry lk p' e))).
+Proof.
+  intros Ha HE. rewrite !step_unfold. cbn [fst].
+  destruct (matches lk e).
+  - assert (H : E false b (run_acts lk (st_set_mv (cap_write lk e (fst p)) (tval lk e) (match_name (mentry lk e))))
+                          (run_acts lk (st_set_mv (cap_write lk e (fst p')) (tval lk e) (match_name (mentry lk e))))).
+    { apply acts_E; auto. eapply E_set_mv, cap_write_E, HE. }
+    split; [|auto]. eapply E_weaken; [| |exact H]; unfold ble; auto; discriminate.
+  - split; [apply cap_write_E, HE | discriminate].
+Qed.
+
+(* pairs (state, matched data so far) *)
+Definition EP (a b : bool) (p p' : st * list entry) : Prop :=
+  E a b (fst p) (fst p') /\ Permutation (snd p) (snd p').
+
+Lemma EP_refl a b p : EP a b p p.
+Proof. split; [apply E_refl | apply Permutation_refl]. Qed.
+
+Lemma EP_trans a b p q r : EP a b p q -> EP a b q r -> EP a b p r.
+Proof. intros [H1 H2] [G1 G2]. split; [eapply E_trans | eapply Permutation_trans]; eauto. Qed.
+
+Lemma step_EP a b lk p p' e :
+  Forall (act_ok false b) (l_acts lk) -> EP a b p p' -> EP a b (step_entry lk p e) (step_entry lk p' e).
+Proof.
+  intros Ha [HE HP]. split.
+  - apply step_respects; auto.
+  - rewrite !step_snd. apply Permutation_app_tail, HP.
+Qed.
+
+(* normal form of one entry's effect up to [E true b] in a link whose actions do not look at the
+   match: the actions ran, or nothing happened *)
+Definition nf (lk : link) (e : entry) (s : st) : st := if matches lk e then run_acts lk s else s.
+
+Lemma nf_E b lk e s s' : Forall (act_ok true b) (l_acts lk) -> E true b s s' -> E true b (nf lk e s) (nf lk e s').
+Proof. intros Ha H. unfold nf. destruct (matches lk e); auto. apply acts_E; auto. Qed.
+
+Lemma nf_comm lk x y s : nf lk y (nf lk x s) = nf lk x (nf lk y s).
+Proof. unfold nf. destruct (matches lk x), (matches lk y); reflexivity. Qed.
+
+Lemma step_nf b lk p e :
+  Forall (act_ok true b) (l_acts lk) -> (captures lk = true -> b = true) ->
+  E true b (fst (step_entry lk p e)) (nf lk e (fst p)).
+Proof.
+  intros Ha Hc. rewrite step_unfold. cbn [fst]. unfold nf. destruct (matches lk e).
+  - apply acts_E; auto. apply E_sym. eapply E_trans; [apply (cap_write_W b lk e); auto | apply W_set_mv].
+  - apply E_sym, cap_write_W; auto.
+Qed.
+
+Lemma step_commute b lk p x y :
+  Forall (act_ok true b) (l_acts lk) -> (captures lk = true -> b = true) ->
+  EP true b (step_entry lk (step_entry lk p x) y) (step_entry lk (step_entry lk p y) x).
+Proof.
+  intros Ha Hc. split.
+  - eapply E_trans; [apply step_nf; auto|].
+    eapply E_trans; [apply nf_E; [auto | apply step_nf; auto]|].
+    rewrite nf_comm. apply E_sym.
+    eapply E_trans; [apply step_nf; auto|]. apply nf_E; [auto | apply step_nf; auto].
+  - rewrite !step_snd, <- !app_assoc. apply Permutation_app_head, Permutation_app_comm.
+Qed.
+
+Lemma act_ok_weaken b a : act_ok true b a -> act_ok false b a.
+Proof. intros (H1 & H2 & H3). split; [auto | split; auto]. Qed.
+
+(* any two orders of the selected entries, in a link whose actions do not look at the match *)
+Lemma entries_perm b lk l l' p p' :
+  Forall (act_ok true b) (l_acts lk) -> (captures lk = true -> b = true) ->
+  Permutation l l' -> EP true b p p' ->
+  EP true b (fold_left (step_entry lk) l p) (fold_left (step_entry lk) l' p').
+Proof.
+  intros Ha Hc HP H.
+  apply (fold_perm_equiv _ _ (EP true b) (step_entry lk)); auto.
+  - apply EP_refl.
+  - apply EP_trans.
+  - intros s s' e Hs. apply step_EP; auto. eapply Forall_impl; [|exact Ha]. apply act_ok_weaken.
+  - intros s x y. apply step_commute; auto.
+Qed.
+
+(* the same order on both sides; after a match MATCHED_VAR agrees again *)
+Definition I (a b : bool) (p p' : st * list entry) : Prop :=
+  EP a b p p' /\ (snd p <> [] -> E false b (fst p) (fst p')).
+
+Lemma step_I a b lk p p' e :
+  Forall (act_ok false b) (l_acts lk) -> I a b p p' -> I a b (step_entry lk p e) (step_entry lk p' e).
+Proof.
+  intros Ha [HEP Hm]. split; [apply step_EP; auto|].
+  rewrite step_snd. unfold mlist. destruct (matches lk e) eqn:Hmt.
+  - intros _. destruct (step_respects a b lk p p' e Ha (proj1 HEP)) as [_ H]. apply H, Hmt.
+  - rewrite app_nil_r. intros Hne. apply (step_respects false b); auto.
+Qed.
+
+Lemma entries_same a b lk l : Forall (act_ok false b) (l_acts lk) ->
+  forall p p', I a b p p' -> I a b (fold_left (step_entry lk) l p) (fold_left (step_entry lk) l p').
+Proof. intros Ha. induction l as [|e l IH]; intros p p' H; cbn; [exact H | apply IH, step_I; auto]. Qed.
